@@ -65,6 +65,12 @@ def gen_inputs(ctx):
                 out.append(("ExtParse", {"s": T(s) if form == "str" else B(pay), "form": form, "asPrv": kind == "prv",
                                          "net": node["net"]}, ("parse", form, t, node["depth"] in (0, 255))))
             out.append(("Import", {"s": T(s)}, ("import", t)))
+            if rng.random() < (0.3 if q else 0.6):
+                # the key inside a longer stream: after other data, and followed by a second key
+                pre = bytes(rng.randrange(256) for _ in range(rng.choice([1, 4, 78, 100])))
+                other = payload_of(nodes[0], W.VERSIONS[t], kind == "prv")
+                out.append(("ExtParse", {"s": B(pre + pay + other), "form": "stream-offset", "offset": len(pre), "asPrv": kind == "prv",
+                                         "net": node["net"]}, ("parse", "stream-offset", t)))
     # public serialisation of PUBLIC nodes (no scalar anywhere in the process)
     for _ in range(4 if q else 30):
         node = mk_node(rng, rng.choice(ks), rng.choice(depths), rng.choice(idxs), rng.choice(pfps), rng.choice(ccs),
